@@ -53,7 +53,10 @@ class Sink(om.ExplicitComponent):
 
     def setup(self):
         for inp in self.options['spec']['inputs']:
-            self.add_input(inp['name'], val=np.zeros(inp['shape'] or [1]), units=inp['units'])
+            if inp.get('sbc'):
+                self.add_input(inp['name'], shape_by_conn=True, units=inp['units'])
+            else:
+                self.add_input(inp['name'], val=np.zeros(inp['shape'] or [1]), units=inp['units'])
         self.add_output('z', val=0.0)
 
     def compute(self, inputs, outputs):
